@@ -545,6 +545,18 @@ public:
     } else if (auto *LE = dyn_cast<LambdaExpr>(E)) {
       kv("k", "Lambda", first);
       loc(E, first);
+      key("params", first);
+      OS << "[";
+      if (const CXXMethodDecl *CO = LE->getCallOperator()) {
+        for (unsigned i = 0; i < CO->getNumParams(); ++i) {
+          if (i) OS << ",";
+          const ParmVarDecl *P = CO->getParamDecl(i);
+          OS << "{\"n\":\"" << jesc(P->getNameAsString()) << "\",\"id\":"
+             << ((long long)(uintptr_t)P->getCanonicalDecl() & 0xffffffffffffLL) << ",\"t\":\""
+             << jesc(canonStr(P->getType())) << "\"}";
+        }
+      }
+      OS << "]";
       key("body", first);
       stmt(LE->getBody());
     } else if (auto *DM = dyn_cast<CXXDependentScopeMemberExpr>(E)) {
